@@ -20,20 +20,41 @@ import rsatoolbox.model as rmodel  # noqa: E402
 import rsatoolbox.inference as rinf  # noqa: E402
 
 _TMP = None
+_TMP_PID = [None]
+_TMP_PREFIX = 'vf_c12_'
 
 
 def tmpdir():
+    """per-process scratch directory for save/load arguments"""
     global _TMP
     if _TMP is None or not os.path.isdir(_TMP) or _TMP_PID[0] != os.getpid():
-        _TMP = tempfile.mkdtemp(prefix='c12_%d_' % os.getpid())
+        _TMP = tempfile.mkdtemp(prefix='%s%d_' % (_TMP_PREFIX, os.getpid()))
         _TMP_PID[0] = os.getpid()
-        import atexit
-        import shutil
-        atexit.register(shutil.rmtree, _TMP, True)
     return _TMP
 
 
-_TMP_PID = [None]
+def cleanup_tmp():
+    """remove scratch directories of processes that no longer exist (called by the parent at
+    the end of a run; pool workers do not run atexit handlers)"""
+    import glob
+    import shutil
+    for d in glob.glob(os.path.join(tempfile.gettempdir(), _TMP_PREFIX + '*')):
+        try:
+            pid = int(os.path.basename(d)[len(_TMP_PREFIX):].split('_')[0])
+        except ValueError:
+            continue
+        alive = True
+        if pid != os.getpid():
+            try:
+                os.kill(pid, 0)
+            except ProcessLookupError:
+                alive = False
+            except PermissionError:
+                pass
+        else:
+            alive = False        # our own: the run is over
+        if not alive:
+            shutil.rmtree(d, ignore_errors=True)
 
 # ---------------------------------------------------------------------------
 # fingerprints
